@@ -91,6 +91,19 @@ def gen_C16(g, tier):
                 vals = [g.nz() if i % 2 == 0 else abs(g.nz()) for i in range(8 + 2 * (k == 4))]
                 cs.append(Case('o.c16.stokesE %s %d %s' % (op, k, frs(vals)), 'orc', 'stokes-of-estimate-' + ('distinct' if k == 4 else 'element'), check=halves_equal))
                 cs.append(Case('o.c16.matE %s %d %s' % (op, k, frs(vals)), 'orc', 'matrix-of-estimate-' + ('distinct' if k == 4 else 'element'), check=halves_equal))
+    # the scalar refers to something inside an element (value / variance of an Estimate, part of a complex number, entry of a
+    # nested Stokes / Vector): the owning element is updated first, so a re-read scalar shows in every later element
+    for rep in range(reps):
+        for op in ('mul', 'div'):
+            for kind, nel, per, ks in (('vecEval', 3, 'E', range(3)), ('vecEvar', 3, 'E', range(3)), ('stokesEval', 4, 'E', range(4)), ('stokesEvar', 4, 'E', range(4)),
+                                       ('matEval', 4, 'E', range(4)), ('vecC', 3, 'C', range(6)), ('stokesC', 4, 'C', range(8)),
+                                       ('vecStokes', 8, 'R', [10 * i + j for i in range(2) for j in range(4)]), ('vecVec', 6, 'R', [10 * i + j for i in range(2) for j in range(3)]),
+                                       ('matVec', 8, 'R', [10 * i + j for i in range(4) for j in range(2)])):
+                for k in ks:
+                    if per == 'E': vals = [g.nz() if i % 2 == 0 else abs(g.nz()) for i in range(2 * nel)]
+                    elif per == 'C': vals = [g.nz() for _ in range(2 * nel)]
+                    else: vals = [g.nz() for _ in range(nel)]
+                    cs.append(Case('o.c16.sub %s %s %d %s' % (kind, op, k, frs(vals)), 'orc', 'scalar-inside-an-element-' + kind, check=halves_equal))
     return cs
 
 
